@@ -169,21 +169,37 @@ func Snap(v avfs.VFS, root string, o SnapOpts) (s *Snapshot) {
 		s.Problems = append(s.Problems, fmt.Sprintf("walk from %s does not terminate within %d nodes", root, o.MaxNodes))
 	}
 	sort.SliceStable(s.Recs, func(i, j int) bool { return s.Recs[i].Path < s.Recs[j].Path })
-	// hard-link classes
-	var files []int
-	for i := range s.Recs {
-		if s.Recs[i].Type == "f" {
-			files = append(files, i)
+	// hard-link classes of regular files and of symbolic links (a link can have several names too)
+	for _, typ := range []string{"f", "l"} {
+		var nodes []int
+		for i := range s.Recs {
+			if s.Recs[i].Type == typ {
+				nodes = append(nodes, i)
+			}
+		}
+		for a, i := range nodes {
+			if s.Recs[i].Class != "" {
+				continue
+			}
+			s.Recs[i].Class = s.Recs[i].Path
+			for _, j := range nodes[a+1:] {
+				if s.Recs[j].Class == "" && v.SameFile(s.Recs[i].fi, s.Recs[j].fi) {
+					s.Recs[j].Class = s.Recs[i].Path
+				}
+			}
 		}
 	}
-	for a, i := range files {
-		if s.Recs[i].Class != "" {
-			continue
+	// a directory has one name: two directory paths reported as the same file would be an alias
+	var dirs []int
+	for i := range s.Recs {
+		if s.Recs[i].Type == "d" {
+			dirs = append(dirs, i)
 		}
-		s.Recs[i].Class = s.Recs[i].Path
-		for _, j := range files[a+1:] {
-			if s.Recs[j].Class == "" && v.SameFile(s.Recs[i].fi, s.Recs[j].fi) {
-				s.Recs[j].Class = s.Recs[i].Path
+	}
+	for a, i := range dirs {
+		for _, j := range dirs[a+1:] {
+			if v.SameFile(s.Recs[i].fi, s.Recs[j].fi) {
+				s.Problems = append(s.Problems, fmt.Sprintf("directories %s and %s are reported as the same file", s.Recs[i].Path, s.Recs[j].Path))
 			}
 		}
 	}
@@ -199,6 +215,9 @@ func (r Rec) line(mtime bool) string {
 		s += fmt.Sprintf(" ->%s", r.Target)
 		if r.Size != 0 {
 			s += fmt.Sprintf(" sz%d", r.Size)
+		}
+		if r.Class != "" && r.Class != r.Path {
+			s += " =" + r.Class
 		}
 	}
 	if mtime {
